@@ -28,6 +28,8 @@ pub struct TraceRng {
     pub perturb_call: Option<usize>,
     /// hand out all-zero bytes for draw number k (a draw that reduces to the zero scalar)
     pub zero_call: Option<usize>,
+    /// XOR the bytes at these offsets of the consumed stream (independent of how the library chunks its requests)
+    pub perturb_range: Option<(usize, usize)>,
     pub script_overrun: bool,
 }
 
@@ -43,7 +45,7 @@ pub fn seed32(parts: &[&[u8]]) -> [u8; 32] {
 
 impl TraceRng {
     pub fn new(src: Src) -> Self {
-        TraceRng { src, stream: vec![], calls: vec![], perturb_call: None, zero_call: None, script_overrun: false }
+        TraceRng { src, stream: vec![], calls: vec![], perturb_call: None, zero_call: None, perturb_range: None, script_overrun: false }
     }
     pub fn chacha(seed: [u8; 32]) -> Self {
         Self::new(Src::ChaCha(Box::new(ChaCha20Rng::from_seed(seed))))
@@ -133,6 +135,14 @@ impl TraceRng {
         }
         if self.zero_call == Some(self.calls.len()) {
             dst.fill(0);
+        }
+        if let Some((a, b)) = self.perturb_range {
+            let base = self.stream.len();
+            for (i, d) in dst.iter_mut().enumerate() {
+                if base + i >= a && base + i < b {
+                    *d ^= 0x5a ^ ((base + i) as u8).wrapping_mul(37) | 1;
+                }
+            }
         }
         self.calls.push(dst.len());
         self.stream.extend_from_slice(dst);
